@@ -7,6 +7,8 @@ import Gts.Lemmas.MarksPush
 import Gts.Lemmas.Reverse
 import Gts.Lemmas.Shift
 import Gts.Lemmas.Embed
+import Gts.Lemmas.Normalize
+import Gts.Lemmas.Delete
 namespace Gts
 namespace Loc
 
@@ -28,7 +30,7 @@ theorem reverse_marks_aux : ∀ (l : Loc) (L : Int), wf l = true → reverseMark
       have hwr : wfList (reverseList ls L).reverse = true := by
         rw [wfList_reverse]; exact (reverseList_mirror ls L hw').2
       simp only [reverse, marks_joined]
-      rw [join_marks _ hwr hk.2]
+      rw [join_marks _ (rwfList_of_wfList _ hwr) hk.2]
       exact reverseList_marks_aux ls L hw' hk.1
   | ordered ls, L, hw, hk => by
       have hw' : wfList ls = true := by simpa [wf] using hw
@@ -119,7 +121,7 @@ theorem shift_marks_aux : ∀ (l : Loc) (i n : Int), wf l = true → 0 ≤ n →
       have hw' : wfList ls = true := by simpa [wf] using hw
       simp only [shiftMarkAbs, Bool.or_eq_false_iff] at hk
       simp only [shift, marks_joined]
-      rw [join_marks _ (shiftList_ins ls i n hw' hn).2 hk.2]
+      rw [join_marks _ (rwfList_of_wfList _ (shiftList_ins ls i n hw' hn).2) hk.2]
       exact shiftList_marks_aux ls i n hw' hn hk.1
   | ordered ls, i, n, hw, hn, hk => by
       have hw' : wfList ls = true := by simpa [wf] using hw
@@ -157,7 +159,7 @@ theorem expand_ins_marks_aux : ∀ (l : Loc) (i n : Int), wf l = true → 0 ≤ 
       have hw' : wfList ls = true := by simpa [wf] using hw
       simp only [expandMarkAbs, Bool.or_eq_false_iff] at hk
       simp only [expand, marks_joined]
-      rw [join_marks _ (expandList_ins ls i n hw' hn).2 hk.2]
+      rw [join_marks _ (rwfList_of_wfList _ (expandList_ins ls i n hw' hn).2) hk.2]
       exact expandList_ins_marks_aux ls i n hw' hn hk.1
   | ordered ls, i, n, hw, hn, hk => by
       have hw' : wfList ls = true := by simpa [wf] using hw
@@ -176,6 +178,85 @@ theorem expandList_ins_marks_aux : ∀ (ls : List Loc) (i n : Int), wfList ls = 
       simp only [expandMarkAbsList, Bool.or_eq_false_iff] at hk
       simp only [expandList, marksList_cons]
       rw [expand_ins_marks_aux l i n hw.1 hn hk.1, expandList_ins_marks_aux ls i n hw.2 hn hk.2]
+end
+
+/-! ### Normalize (the second step of Rotate) -/
+
+theorem marks_rangedNormalize (s e : Int) (a b : Bool) (L : Int) (hL : 0 < L) (hs : 0 ≤ s) (h : s < e) :
+    marks (rangedNormalize s e a b L) = some (a, b) ∧ rwf (rangedNormalize s e a b L) = true := by
+  unfold rangedNormalize
+  by_cases hfull : e - s = L
+  · rw [if_pos hfull]
+    by_cases h0 : s = 0
+    · subst h0; simp [rangedExpand, h, rwf]
+    · rw [rangedExpand_del_eq _ _ _ _ _ _ (show 0 < s by omega)]
+      have a1 : delStart s 0 s = 0 := by unfold delStart; split <;> omega
+      have a2 : delEnd e 0 s = L := by unfold delEnd; split <;> omega
+      rw [a1, a2, if_neg (by omega)]
+      have f1 : ¬ (0 ≤ s ∧ s < 0 + s) := by omega
+      have f2 : ¬ (0 < e ∧ e ≤ 0 + s) := by omega
+      rw [if_neg f1, if_neg f2]
+      simp [hL, rwf]
+  · rw [if_neg hfull]
+    simp only [tmod_nonneg_eq s L hs, tmod_nonneg_eq (e - 1) L (by omega)]
+    have hr1 := Int.emod_lt_of_pos s hL
+    have he0 := Int.emod_nonneg (e - 1) (show L ≠ 0 by omega)
+    generalize s % L = r at *
+    generalize (e - 1) % L = q at *
+    by_cases hc : r < q + 1
+    · rw [if_pos hc]; simp [hc, rwf]
+    · rw [if_neg hc, join_two_ranged_ne _ _ _ _ _ _ _ _ (by omega)]
+      have : 0 < q + 1 := by omega
+      simp [hr1, this, mcomb, rwf]
+
+mutual
+theorem normalize_marks_aux : ∀ (l : Loc) (L : Int), 0 < L → rwf l = true → nonneg l = true →
+    (normalizeMarkAbs l L = false → marks (normalize l L) = marks l) ∧ rwf (normalize l L) = true
+  | between p, L, _, _, _ => by simp [normalize, rwf]
+  | point p, L, _, _, _ => by simp [normalize, rwf]
+  | ranged s e a b, L, hL, hw, hnn => by
+      have h : s < e := by simpa [rwf] using hw
+      have hs : 0 ≤ s := by simpa [nonneg] using hnn
+      have := marks_rangedNormalize s e a b L hL hs h
+      simp [normalize, this.1, this.2, h]
+  | ambiguous s e, L, _, _, _ => by simp [normalize, rwf]
+  | joined ls, L, hL, hw, hnn => by
+      have ih := normalizeList_marks_aux ls L hL (by simpa [rwf] using hw) (by simpa [nonneg] using hnn)
+      refine ⟨?_, by simpa [normalize] using join_rwf _ ih.2⟩
+      intro hk
+      simp only [normalizeMarkAbs, Bool.or_eq_false_iff] at hk
+      simp only [normalize, marks_joined]
+      rw [join_marks _ ih.2 hk.2]
+      exact ih.1 hk.1
+  | ordered ls, L, hL, hw, hnn => by
+      have ih := normalizeList_marks_aux ls L hL (by simpa [rwf] using hw) (by simpa [nonneg] using hnn)
+      refine ⟨?_, by simpa [normalize] using order_rwf _ ih.2⟩
+      intro hk
+      simp only [normalizeMarkAbs] at hk
+      simp only [normalize, marks_ordered, order_marks]
+      exact ih.1 hk
+  | compl l, L, hL, hw, hnn => by
+      have ih := normalize_marks_aux l L hL (by simpa [rwf] using hw) (by simpa [nonneg] using hnn)
+      refine ⟨?_, by simpa [normalize, rwf] using ih.2⟩
+      intro hk
+      simp only [normalizeMarkAbs] at hk
+      simp only [normalize, marks_compl]
+      rw [ih.1 hk]
+theorem normalizeList_marks_aux : ∀ (ls : List Loc) (L : Int), 0 < L → rwfList ls = true →
+    nonnegList ls = true →
+    (normalizeMarkAbsList ls L = false → marksList (normalizeList ls L) = marksList ls) ∧
+    rwfList (normalizeList ls L) = true
+  | [], _, _, _, _ => by simp [normalizeList]
+  | l :: ls, L, hL, hw, hnn => by
+      simp only [rwfList_cons, Bool.and_eq_true] at hw
+      simp only [nonnegList, Bool.and_eq_true] at hnn
+      have h1 := normalize_marks_aux l L hL hw.1 hnn.1
+      have h2 := normalizeList_marks_aux ls L hL hw.2 hnn.2
+      refine ⟨?_, by simp [normalizeList, h1.2, h2.2]⟩
+      intro hk
+      simp only [normalizeMarkAbsList, Bool.or_eq_false_iff] at hk
+      simp only [normalizeList, marksList_cons]
+      rw [h1.1 hk.1, h2.1 hk.2]
 end
 
 /-- from `marks` to the oracle's `outerMarks` -/
